@@ -400,7 +400,7 @@ for nel in (0, 1, 2, 3):
             continue
         OBLIGATIONS.append(_ob('setget_n%d_e%d' % (nel, e), 'h_setget%d' % nel, tier, 900 if nel < 3 else 5400, nel=nel, eidx=e))
 OBLIGATIONS += [
-] + [_ob('setset_e%d_e%d' % (e1, e2), 'h_setset', 'quick' if (e1, e2) in ((5, 3), (4, 2)) else 'thorough', 900, eidx=e1, e2=e2)
+] + [_ob('setset_e%d_e%d' % (e1, e2), 'h_setset', 'quick' if (e1, e2) in ((5, 3), (4, 2), (2, 2), (1, 1)) else 'thorough', 900, eidx=e1, e2=e2)
      for e1 in (1, 2, 3, 4, 5) for e2 in (1, 2, 3, 4, 5)] + [
     _ob('get_absent', 'h_get_absent', 'quick', 300, nel=1),
     _ob('foreign_e1', 'h_foreign', 'quick', 300, eidx=1),
